@@ -86,6 +86,14 @@ muts = {
  'S06_tsa_revocation_ok_remembered': (V, '\tcertResults, err := r.ValidateContext(ctx, revocation.ValidateContextOptions{\n\t\tCertChain: tsaCertChain,\n\t})\n\tif err != nil {\n\t\treturn fmt.Errorf("failed to check timestamping', '\tif _, ok := goodTSAs.Load(string(tsaCertChain[0].Raw)); ok {\n\t\treturn nil\n\t}\n\tcertResults, err := r.ValidateContext(ctx, revocation.ValidateContextOptions{\n\t\tCertChain: tsaCertChain,\n\t})\n\tif err != nil {\n\t\treturn fmt.Errorf("failed to check timestamping', 'var goodTSAs sync.Map\n', ('\t// success\n\tlogger.Debug("Timestamp verification: Success")', '\t// success\n\tgoodTSAs.Store(string(tsaCertChain[0].Raw), true)\n\tlogger.Debug("Timestamp verification: Success")')),
  'S07_result_count_check_removed': (V, '\tif len(certResults) != len(certChain) {', '\tif false {'),
  'S08_result_count_only_too_few': (V, '\tif len(certResults) != len(certChain) {', '\tif len(certResults) > len(certChain) {'),
+ # wrong clock / wrong arguments (round 3)
+ 'T01_tsa_revocation_as_of_now_explicit': (V, '\t\tCertChain: tsaCertChain,\n\t})', '\t\tCertChain:            tsaCertChain,\n\t\tAuthenticSigningTime: timeOfVerification,\n\t})'),
+ 'T02_tsa_revocation_on_signing_chain': (V, '\t\tCertChain: tsaCertChain,\n\t})', '\t\tCertChain: signerInfo.CertificateChain,\n\t})'),
+ 'T03_expiry_now_rounded': (V, '!expiry.IsZero() && !time.Now().Before(expiry)', '!expiry.IsZero() && !time.Now().Round(time.Second).Before(expiry)'),
+ 'T04_expiry_grace_second': (V, '!expiry.IsZero() && !time.Now().Before(expiry)', '!expiry.IsZero() && !time.Now().Add(-time.Second).Before(expiry)'),
+ 'T05_timestamp_clock_truncated': (V, '\ttimeOfVerification := time.Now()\n\tif performTimestampVerification &&', '\ttimeOfVerification := time.Now().Truncate(time.Second)\n\tif performTimestampVerification &&'),
+ 'T06_timestamp_clock_rounded_up': (V, '\ttimeOfVerification := time.Now()\n\tif performTimestampVerification &&', '\ttimeOfVerification := time.Now().Truncate(time.Second).Add(time.Second)\n\tif performTimestampVerification &&'),
+ 'T07_signing_revocation_always_gets_signing_time': (V, '\tif outcome.EnvelopeContent.SignerInfo.SignedAttributes.SigningScheme == signature.SigningSchemeX509SigningAuthority {\n\t\tauthenticSigningTime, _ =', '\tif true {\n\t\tauthenticSigningTime =  outcome.EnvelopeContent.SignerInfo.SignedAttributes.SigningTime\n\t\t_, _ ='),
  'B01_expiry_boundary_only(unobservable)': (V, '!expiry.IsZero() && !time.Now().Before(expiry)', '!expiry.IsZero() && time.Now().After(expiry)'),
  # behaviour-preserving
  'R01_message_changed': (V, 'return errors.New("no timestamp countersignature was found in the signature envelope")', 'return errors.New("the envelope carries no RFC 3161 countersignature")'),
